@@ -160,6 +160,9 @@ impl EventLoop {
             // Last session might contain packets which aren't acked. If it's a new session, clear the pending packets.
             if !connack.session_present {
                 self.pending.clear();
+                // a publish parked on a packet-id collision waits for an ack of the
+                // old session; nobody owns that id any more
+                self.state.collision = None;
             }
             self.network = Some(network);
 
